@@ -2,5 +2,5 @@
 # Runs the repository's pinned test suite with the OMPL_VERIF guard OFF (the _build tree is
 # configured without the define), rebuilding from /repo's working tree first.
 set -e
-cmake --build /repo/_build -j16 >/dev/null
+cmake --build /repo/_build -j8 >/dev/null
 exec ctest --test-dir /repo/_build -j8 --timeout 900
